@@ -14,6 +14,24 @@ TCPServer / H11Protocol|H2Protocol / WSStream / wsproto stack, application = acc
 
   families: single (1 message, full alphabet), pair (2 messages), triple (3 messages), ping (pings), and
   sched (Explorer A: frames as separate reads injected mid-flight, bounds M/S/R) for the schedule quantifier.
+  big    payload sizes around the 7-bit / 16-bit / 64-bit length encodings (limit 1 MiB).
+  multi  TWO connections in ONE world (one worker process: the server's module-level and per-process state is
+         shared exactly as in production, and nothing survives from an earlier execution into the history that is
+         judged): carriers {ws/h1, ws/h2}^2 x permessage-deflate {deflate+plain, plain+deflate, deflate+deflate}
+         (thorough: plain+plain) x mode {seq: connection 0 runs a whole session, connection 1 is opened afterwards,
+         connection 0 closed by then / still open; inter: both open, the two sessions' messages merged in EVERY
+         order that preserves each connection's own order; thorough also conc: the two sessions as independent
+         sources of Explorer A, frames injected mid-flight, M<=1,S<=1} x {unfragmented, every message
+         cut in two frames}.
+         The messages are repetitive and nearly equal on both connections, so with context takeover every later
+         message is a back-reference into its own connection's history.  The oracle below is applied per connection.
+  pad    ws/h2 with PADDED DATA frames (RFC 9113 6.1): 260 single-frame messages x 255 bytes of padding
+         (260 x (frame + 256) > 65 535 = the initial stream and connection receive windows) sent by a client that
+         honours flow control; all of them must be delivered and echoed, i.e. the server has to return the credit
+         for everything it consumed.  Single path (M=0, S=0).
+  early  messages that arrive while the handshake response is still in flight: the peer stops reading, the handshake
+         arrives, the application accepts (trio: the send of the 101 / 200 blocks; asyncio: it waits in the write
+         buffer), {all, the first} message(s) arrive, the peer reads again, the rest and the Close follow.
   The fragmentation, the ping placement and the split are *data choice points* (always fully enumerated).
   Frames come from a hand-written RFC 6455 / 7692 writer (mc/x_c10c11_ref.py); the client's final Close(1000)
   is sent in a read of its own once everything before it was processed.
@@ -44,16 +62,20 @@ from mc.explore import V
 from mc.harness import internal_errors
 from mc.x_c10c11_ref import (OP_BIN, OP_PING, OP_TEXT, close_frame, decodable_size, expected_receive,
                              first_oversize, frame, message_frames, wire_payloads)
-from mc.x_c10c11_run import case_execute, make_guard_client
+from mc.x_c10c11_run import case_execute, make_guard_client, make_window_client
 
 ID = "C10"
 LEVEL = "model_checking"
 TECHNIQUE = ("bounded exhaustive enumeration of client WebSocket sessions (message sequence x fragmentation x "
              "ping placement x read segmentation x compression x carrier x worker) executed on the real server stack "
-             "under the virtual-time engines; plus deviation-bounded schedule exploration of frame arrival")
-RULE = ("one execution = one session; non-trivial = a websocket instance ran and a non-default fragmentation/ping/"
-        "split/schedule choice was taken; distinct by digest of (messages delivered to the application, send outcomes, "
-        "client-side parsed messages/pongs/close, connection end state, logs)")
+             "under the virtual-time engines; two-connection histories in one world (sequential and every interleaving "
+             "of the two sessions' messages, mixed carriers and compression); padded HTTP/2 DATA beyond the initial "
+             "flow-control window; messages arriving while the handshake response is in flight; plus deviation-bounded "
+             "schedule exploration of frame arrival")
+RULE = ("one execution = one session (multi: two sessions on two connections in one world); non-trivial = a websocket "
+        "instance ran and a non-default fragmentation/ping/split/merge/schedule choice was taken; distinct by digest of "
+        "(messages delivered to the application, send outcomes, client-side parsed messages/pongs/close, connection end "
+        "state, logs)")
 ASSUMPTIONS = [
     "environment model (fake transport/stream, virtual loop) is bound to real sockets by ./check selftest",
     "websocket_max_message_size = 4 stands for any limit (the comparison is the only place the value is used)",
@@ -61,11 +83,22 @@ ASSUMPTIONS = [
     "frame arrival is interleaved with the server's own progress within the deviation bounds",
     "pongs are demanded only for pings that precede the point at which the accumulated size can exceed the limit; "
     "echoes are demanded in full only when no message is oversize",
+    "multi: two connections stand for any number; every message is answered before the next one is sent "
+    "(interleaving at message granularity, at quiescence)",
+    "pad: the client keeps to its flow-control window (a padded DATA frame is sent only when the stream and the "
+    "connection window cover payload + padding + 1); 260 frames x 255 padding bytes stand for any traffic that "
+    "exceeds the 65 535 byte initial window",
+    "early: a client may send frames as soon as the application has accepted although the 101 / 200 has not reached "
+    "it yet (its own reading is stalled); the arrival is placed in that window by a guard on the application's accept",
 ]
 BOUNDS_DOC = {
-    "quick": "messages<=2 (+3 unfragmented), K<=2 frames/message, <=1 ping, all 2-way splits + bytewise; sched M<=1,S<=1",
+    "quick": "messages<=2 (+3 unfragmented), K<=2 frames/message, <=1 ping, all 2-way splits + bytewise; sched M<=1,S<=1; "
+             "multi 2 connections x 2 messages each (all 6 merges, seq with/without overlap), 3 compression pairs x 4 carrier "
+             "pairs; pad 260 frames x 255 padding; early 2 messages",
     "thorough": "messages<=3, K<=3 frames/message (pairs K<=2, triples mid cut only), <=2 pings, all 2-way splits + bytewise; "
-                "sched asyncio M<=2, trio M<=1 with R<=1",
+                "sched asyncio M<=2, trio M<=1 with R<=1; multi 2 connections x 3 messages each (all 20 merges), 4 compression "
+                "pairs x 4 carrier pairs, and the two sessions scheduled against each other M<=1,S<=1; pad 260 x 255 "
+                "and 40 x {0, 1}; early 2 and 3 messages",
 }
 BUDGET = {"quick": 100, "thorough": 1150}
 
@@ -74,7 +107,7 @@ BIG_L = 1 << 20  # the 'big' family: payload sizes around the 7-bit / 16-bit / 6
 
 
 def limit_of(family: str) -> int:
-    return BIG_L if family == "big" else L
+    return BIG_L if family in ("big", "multi", "pad", "early") else L
 
 
 T = lambda s: ("t", s)  # noqa: E731
@@ -178,7 +211,152 @@ def plan(params: tuple, pick: Callable[[int, str], int]) -> dict:
     return case
 
 
+def _open_events(k: int, carrier: str, deflate: bool, path: bytes) -> Tuple[dict, List[tuple], Callable[[bytes], tuple]]:
+    """(connection options, handshake events, bytes -> event carrying WebSocket bytes) for connection k."""
+    if carrier == "ws/h1":
+        extra = [(b"Sec-WebSocket-Extensions", b"permessage-deflate")] if deflate else []
+        return ({"carrier": "ws/h1", "deflate": deflate}, [("data", k, ws_h1_handshake(path, extra))],
+                lambda b: ("cmd", k, "ws_raw", b))
+    extra = [(b"sec-websocket-extensions", b"permessage-deflate")] if deflate else []
+    return ({"carrier": "ws/h2", "tls": True, "alpn": "h2"},
+            [("cmd", k, "preface"), ("cmd", k, "ws_open", 1, deflate),
+             ("cmd", k, "headers", 1, ws_h2_headers(path, extra), False)],
+            lambda b: ("cmd", k, "ws_data", 1, b))
+
+
+def _conn_case(family: str, msgs: tuple, deflate: bool, cut: bool) -> dict:
+    """Specification of one connection's session for the per-connection oracle: every message in one frame, or
+    (cut) in two frames cut in the middle of its on-wire payload."""
+    payloads = wire_payloads(msgs, deflate)
+    frames: List[Tuple[int, bytes, int]] = []
+    for i, (m, pl) in enumerate(zip(msgs, payloads)):
+        cuts = (len(pl) // 2,) if cut else ()
+        offs = [0] + list(cuts)
+        for j, fb in enumerate(message_frames(OP_TEXT if m[0] == "t" else OP_BIN, pl, cuts, deflate)):
+            frames.append((i, fb, offs[j]))
+    return {"msgs": msgs, "deflate": deflate, "payloads": payloads, "frames": frames, "pings": (), "family": family,
+            "cuts": "mid" if cut else "none"}
+
+
+MULTI_TEXT = "hello hello hello hello "
+
+
+def multi_msgs(k: int, n: int) -> tuple:
+    """Messages of connection k: highly repetitive (with context takeover every later message is a back-reference
+    into the same connection's earlier ones) and nearly the same on both connections."""
+    base = [T(MULTI_TEXT + str(k)), B((MULTI_TEXT + str(k)).encode()), T(MULTI_TEXT * 2 + str(k)),
+            B((MULTI_TEXT * 2 + str(k)).encode())]
+    return tuple(base[:n])
+
+
+def build_multi(params: tuple, pick: Callable[[int, str], int]) -> tuple:
+    """Two connections in ONE world (one worker: same process, same modules, same event loop).
+    seq:   connection 0 runs a whole session, connection 1 is opened afterwards (data choice: connection 0 has
+           closed by then / is still open and closes last);
+    inter: both handshakes, then the messages of the two sessions merged in EVERY order that keeps each
+           connection's own order (data choice), each message answered before the next is sent."""
+    _, engine, carriers, deflates, mode, nmsg = params
+    cut = bool(pick(2, "cut"))
+    conn_opts, opens, wsev, cases, per_msg = {}, {}, {}, {}, {}
+    for k in (0, 1):
+        conn_opts[k], opens[k], wsev[k] = _open_events(k, carriers[k], deflates[k], b"/w%d" % k)
+        cases[k] = _conn_case("multi", multi_msgs(k, nmsg), deflates[k], cut)
+        per_msg[k] = [[wsev[k](fb) for mi, fb, _ in cases[k]["frames"] if mi == i] for i in range(nmsg)]
+    closing = {k: [wsev[k](close_frame(1000))] for k in (0, 1)}
+    events: List[tuple] = []
+    guards = {}
+    if mode == "seq":
+        overlap = pick(2, "overlap")
+        first = opens[0] + [e for m in per_msg[0] for e in m] + ([] if overlap else closing[0])
+        second = [("after_first",), ("connect", 1, conn_opts[1])] + opens[1] + [e for m in per_msg[1] for e in m]
+        second += closing[1] + (closing[0] if overlap else [])
+        sources = [("first", first), ("second", second)]
+        guards = {"after_first": _first_source_over}
+        conns = {0: conn_opts[0]}
+        order: Any = "0-then-1" + (":overlapping" if overlap else "")
+    elif mode == "conc":  # Explorer A: the two sessions are independent sources, frames are also injected mid-flight
+        sources = [(f"c{k}", opens[k] + [e for m in per_msg[k] for e in m] + closing[k]) for k in (0, 1)]
+        conns = {0: conn_opts[0], 1: conn_opts[1]}
+        order = "scheduled"
+    else:
+        merges = list(itertools.combinations(range(2 * nmsg), nmsg))  # positions taken by connection 0
+        pos0 = set(merges[pick(len(merges), "merge")])
+        events += opens[0] + opens[1]
+        nxt = {0: 0, 1: 0}
+        order = []
+        for p in range(2 * nmsg):
+            k = 0 if p in pos0 else 1
+            events += per_msg[k][nxt[k]]
+            nxt[k] += 1
+            order.append(k)
+        events += closing[0] + closing[1]
+        sources = [("client", events)]
+        conns = {0: conn_opts[0], 1: conn_opts[1]}
+    case = {"family": "multi", "conn": cases, "order": order, "cut": cut}
+    sc = {"level": "conn", "conns": conns, "client_factory": make_guard_client, "apps": {"websocket": APP},
+          "config": {"websocket_max_message_size": BIG_L}, "sources": sources, "midflight": mode == "conc",
+          "trio_rev": mode == "conc", "guards": guards}
+    return engine, sc, case
+
+
+def _first_source_over(world: Any, ev: tuple) -> bool:
+    """Guard of the pseudo event ('after_first',): the first connection's session has been played to its end, or
+    cannot go on (the server dropped that connection), so that the later connection is judged in either case."""
+    name, evs = world.driver.sources[0]
+    pos = world.driver.pos[0]
+    return pos >= len(evs) or not world.enabled(evs[pos])
+
+
+def pad_msgs(n: int) -> tuple:
+    return tuple(T("m%03d-é" % i) if i % 2 else B(b"m%03d" % i) for i in range(n))
+
+
+def build_pad(params: tuple, pick: Callable[[int, str], int]) -> tuple:
+    """ws/h2 with PADDED DATA frames (RFC 9113 6.1): n single-frame messages, each in one DATA frame carrying
+    `pad` bytes of padding, sent by a client that honours flow control ('datap' waits for window)."""
+    _, engine, carrier, deflate, n, pad = params
+    case = _conn_case("pad", pad_msgs(n), deflate, False)
+    conn, opens, _ = _open_events(0, "ws/h2", deflate, b"/w")
+    events = opens + [("cmd", 0, "ws_wait")]
+    events += [("cmd", 0, "datap", 1, fb, pad, False) for _, fb, _ in case["frames"]]
+    events += [("cmd", 0, "datap", 1, close_frame(1000), pad, False)]
+    case["pad"] = pad
+    sc = {"level": "conn", "conns": {0: conn}, "client_factory": make_guard_client, "apps": {"websocket": APP},
+          "config": {"websocket_max_message_size": BIG_L}, "sources": [("client", events)], "midflight": False,
+          "trio_rev": False, "sigs": False}
+    return engine, sc, case
+
+
+def build_early(params: tuple, pick: Callable[[int, str], int]) -> tuple:
+    """Messages that reach the server while its handshake response is still in flight: the peer stops reading,
+    the handshake arrives, the application accepts (the send of the 101 / 200 blocks or stays in the write
+    buffer), the messages arrive, the peer reads again.  Data choice: every message / only the first arrive early."""
+    _, engine, carrier, deflate, msgs = params
+    cut = bool(pick(2, "cut"))
+    case = _conn_case("early", msgs, deflate, cut)
+    conn, opens, wsev = _open_events(0, carrier, deflate, b"/w")
+    early = [("cmd", 0, "ws_early", 1, fb) for _, fb, _ in case["frames"]]
+    n_early = len(early) if pick(2, "early") == 0 else len([f for f in case["frames"] if f[0] == 0])
+    late = [wsev(fb) for _, fb, _ in case["frames"][n_early:]]
+    if carrier == "ws/h2":  # the connection preface is exchanged before the peer stalls
+        events = opens[:1] + [("pause", 0)] + opens[1:]
+    else:
+        events = [("pause", 0)] + opens
+    events += early[:n_early] + [("resume", 0)] + late + [wsev(close_frame(1000))]
+    case["early_frames"] = n_early
+    sc = {"level": "conn", "conns": {0: conn}, "client_factory": make_window_client, "apps": {"websocket": APP},
+          "config": {"websocket_max_message_size": BIG_L}, "sources": [("client", events)], "midflight": False,
+          "trio_rev": False}
+    return engine, sc, case
+
+
 def build(params: tuple, pick: Callable[[int, str], int]) -> tuple:
+    if params[0] == "multi":
+        return build_multi(params, pick)
+    if params[0] == "pad":
+        return build_pad(params, pick)
+    if params[0] == "early":
+        return build_early(params, pick)
     family, engine, carrier, deflate = params[:4]
     case = plan(params, pick)
     closing = close_frame(1000)
@@ -229,7 +407,9 @@ def scenarios(tier: str) -> List[Any]:
             for n in sizes:
                 out.append(("big", e, c, d, (B(bytes([n % 251]) * n),), 1, "none", "none"))
             out.append(("big", e, c, d, (T("x" * 126), B(b"y" * (65536 if c == "ws/h1" else 16000))), 1, "none", "none"))
+        out += extra_scenarios(tier)
     else:
+        out += extra_scenarios(tier)
         for e, c, d in combos:
             for m in ALPHABET:
                 out.append(("single", e, c, d, (m,), 3, "all", "p"))
@@ -249,7 +429,37 @@ def scenarios(tier: str) -> List[Any]:
     return out
 
 
+PAD_FRAMES = 260  # x (frame + 255 padding + 1) > 65 535: the initial stream AND connection windows are used up
+EARLY_MSGS = ((T("early é"), B(b"\x00early")), (B(b""), T("abc"), T("")))
+
+
+def extra_scenarios(tier: str) -> List[Any]:
+    """multi (two connections in one world), pad (padded HTTP/2 DATA), early (messages during the handshake send)."""
+    out: List[Any] = []
+    quick = tier == "quick"
+    pairs = [(True, False), (False, True), (True, True)] + ([] if quick else [(False, False)])
+    for e in ENGINES:
+        for carriers in itertools.product(CARRIERS, repeat=2):
+            for deflates in pairs:
+                for mode in ("seq", "inter"):
+                    out.append(("multi", e, carriers, deflates, mode, 2 if quick else 3))
+                if not quick and deflates != (False, False):
+                    out.append(("multi", e, carriers, deflates, "conc", 2))
+        for d in (False, True):
+            out.append(("pad", e, "ws/h2", d, PAD_FRAMES, 255))
+            if not quick:
+                out.append(("pad", e, "ws/h2", d, 40, 0))
+                out.append(("pad", e, "ws/h2", d, 40, 1))
+        for c in CARRIERS:
+            for d in (False, True):
+                for ms in (EARLY_MSGS[:1] if quick else EARLY_MSGS):
+                    out.append(("early", e, c, d, ms))
+    return out
+
+
 def bounds(tier: str, params: Any) -> dict:
+    if params[0] == "multi" and params[4] == "conc":
+        return {"M": 1, "S": 1, "R": 0}  # (trio with R<=1 is > 10^4 executions per scenario)
     if params[0] != "sched":
         return {"M": 0, "S": 0, "R": 0}
     if tier == "quick":
@@ -298,12 +508,50 @@ def required_pongs(case: dict) -> Tuple[List[bytes], List[bytes]]:
     return req, allp
 
 
+def _sites(w: Any) -> dict:
+    sites: dict = {}
+    for v in internal_errors(w):  # asyncio reports the same exception twice (handler + loop): one entry per site
+        for site in v["key"].split("+"):
+            sites.setdefault(site, v["detail"])
+    return sites
+
+
 def oracle(w: Any, params: Any, case: dict) -> List[dict]:
     out: List[dict] = []
-    family, engine, carrier, deflate = params[:4]
-    tag = carrier + (":deflate" if deflate else "")
+    family = params[0]
+    sites = _sites(w)
+    if family == "multi":
+        _, engine, carriers, deflates, mode, nmsg = params
+        pre = f"{mode}:{'+'.join('deflate' if d else 'plain' for d in deflates)}"
+        for site, detail in sorted(sites.items()):
+            out.append(V("internal-error", f"{pre}:{'+'.join(carriers)}:{site}", detail))
+        for k in (0, 1):
+            rec = w.conns.get(k)
+            if rec is None:
+                out.append(V("upgrade", f"{pre}:conn{k}:{carriers[k]}:never-connected", ""))
+                continue
+            insts = [i for i in w.instances if i.scope.get("path") == f"/w{k}"]
+            # (conc: like 'sched', a Close may overtake the echoes still to be sent: they are judged as a prefix)
+            out += judge_conn(rec, insts, "sched" if mode == "conc" else family, carriers[k], deflates[k],
+                              case["conn"][k], bool(sites), f"{pre}:conn{k}:")
+        stray = [i.scope.get("path") for i in w.instances if i.scope.get("path") not in ("/w0", "/w1")]
+        if stray:
+            out.append(V("upgrade", f"{pre}:stray-instances", stray))
+        return out
+    carrier, deflate = params[2], params[3]
+    for site, detail in sorted(sites.items()):
+        out.append(V("internal-error", f"{carrier}:{site}", detail))
+    pre = f"{family}:" if family in ("pad", "early") else ""
+    return out + judge_conn(w.conns[0], list(w.instances), family, carrier, deflate, case, bool(sites), pre)
+
+
+def judge_conn(rec: Any, insts: List[Any], family: str, carrier: str, deflate: bool, case: dict, crashed: bool,
+               pre: str) -> List[dict]:
+    """The per-connection fidelity oracle: `insts` are the application instances that belong to connection `rec`,
+    `case` is the specification of what that connection's client sent."""
+    out: List[dict] = []
+    tag = pre + carrier + (":deflate" if deflate else "")
     msgs = case["msgs"]
-    rec = w.conns[0]
     cl = rec.client
     # the one input trait findings are keyed on: a control frame between two fragments of a compressed message
     frames = case["frames"]
@@ -311,24 +559,20 @@ def oracle(w: Any, params: Any, case: dict) -> List[dict]:
     if deflate and any(0 < pos < len(frames) and frames[pos - 1][0] == frames[pos][0] for pos, _ in case["pings"]):
         trait = ":ctl-inside-fragmented-deflate-msg"
     tag2 = tag + trait
-    sites = {}
-    for v in internal_errors(w):  # asyncio reports the same exception twice (handler + loop): one entry per site
-        for site in v["key"].split("+"):
-            sites.setdefault(site, v["detail"])
-    for site, detail in sorted(sites.items()):
-        out.append(V("internal-error", f"{carrier}:{site}", detail))
-    if sites:  # whatever else goes wrong in this execution is (also) a consequence of the crash
+    if crashed:  # whatever else goes wrong in this execution is (also) a consequence of the crash
         tag2 += ":crashed"
     if cl.error is not None:
         out.append(V("client-parse", f"{tag2}:{cl.error.split(':')[0]}", cl.error))
+    if family in ("pad", "multi", "early") and cl.h2 is not None and cl.h2.skipped:  # the scenario asked the client for something its h2 library refuses
+        out.append(V("harness-problem", f"{tag}:client-command-refused:{cl.h2.skipped[0][0]}", cl.h2.skipped[:4]))
     wsp = cl.ws if carrier == "ws/h1" else cl.h2.ws.get(1)
-    ws_insts = [i for i in w.instances if i.type == "websocket"]
+    ws_insts = [i for i in insts if i.type == "websocket"]
     if carrier == "ws/h1":
         upgraded = bool(cl.h1.responses) and cl.h1.responses[0]["status"] == 101
     else:
         upgraded = 1 in cl.h2.streams and cl.h2.streams[1]["status"] == 200
-    if not upgraded or len(w.instances) != 1 or len(ws_insts) != 1:
-        out.append(V("upgrade", f"{tag}:upgraded={upgraded}:instances={len(w.instances)}", ""))
+    if not upgraded or len(insts) != 1 or len(ws_insts) != 1:
+        out.append(V("upgrade", f"{tag}:upgraded={upgraded}:instances={len(insts)}", ""))
         return out
     inst = ws_insts[0]
     delivered = inst.delivered()
@@ -355,13 +599,14 @@ def oracle(w: Any, params: Any, case: dict) -> List[dict]:
                 kind = "wrong-type"
             else:
                 kind = "wrong-payload"
-        out.append(V("delivery", f"{tag2}:{kind}", f"expected {exp!r} got {got!r}"))
+        out.append(V("delivery", f"{tag2}:{kind}", _short(f"expected {exp!r} got {got!r}", len(got), len(exp))))
     # what the client saw
     echo_exp = [("text", m[1]) if m[0] == "t" else ("bytes", bytes(m[1])) for m in exp_msgs]
     echo_got = list(wsp.messages) if wsp is not None else []
     if over is None and family != "sched":
         if echo_got != echo_exp:
-            out.append(V("echo", f"{tag2}:mismatch", f"expected {echo_exp!r} got {echo_got!r}"))
+            out.append(V("echo", f"{tag2}:mismatch",
+                         _short(f"expected {echo_exp!r} got {echo_got!r}", len(echo_got), len(echo_exp))))
     elif echo_got != echo_exp[:len(echo_got)]:
         out.append(V("echo", f"{tag2}:not-a-prefix", f"expected prefix of {echo_exp!r} got {echo_got!r}"))
     if over is not None:
@@ -375,7 +620,18 @@ def oracle(w: Any, params: Any, case: dict) -> List[dict]:
     return out
 
 
+def _short(text: str, n_got: int, n_exp: int) -> str:
+    """Long message lists (the 'pad' family) are summarised by their lengths."""
+    return text if len(text) <= 560 else f"{n_got} of {n_exp} messages; {text[:240]} ... {text[-240:]}"
+
+
 def describe_case(case: dict) -> dict:
+    if case["family"] == "multi":
+        return {"order": case["order"], "cut": case["cut"],
+                "conns": {k: {"msgs": c["msgs"], "deflate": c["deflate"]} for k, c in case["conn"].items()}}
+    if case["family"] in ("pad", "early"):
+        return {"messages": len(case["msgs"]), "deflate": case["deflate"], "cuts": case["cuts"],
+                "pad": case.get("pad"), "early_frames": case.get("early_frames"), "first": case["msgs"][:3]}
     return {"msgs": case["msgs"], "deflate": case["deflate"], "cuts": case["cuts"], "pings": case["pings"],
             "split": case["split"], "reads": len(case["segs"])}
 
